@@ -199,6 +199,55 @@ def validate_obs(name):
             "tail": "" if ok else "\n".join(l for l in out.splitlines() if not TLC_NOISE.match(l))[-2500:]}
 
 
+DRIFT_RE = re.compile(r'^"?DRIFT @(\d+) (.*?)"?$')
+
+
+def validate_conf(name):
+    """conformance of every recorded harness run to Engine.tla itself (Trace_Engine.tla): each logged step must be the named
+    action, enabled, with the logged post-state. A run the specification cannot follow is 'drift' (reported, not a verdict)."""
+    raw = os.path.join(CACHE, "jobs", name + ".ndjson")
+    runs = project.project_d(open(raw))
+    res = {"name": name, "runs": 0, "lines": 0, "drift": [], "error": None}
+    for watch in (False, True):
+        part = [r for r in runs if bool(r[0]["cfg"]["watch"]) == watch]
+        for attempt in range(4):
+            if not part:
+                break
+            dp = os.path.join(CACHE, "jobs", "%s.d%d.ndjson" % (name, int(watch)))
+            starts, n = [], 0
+            with open(dp, "w") as f:
+                for r in part:
+                    starts.append(n + 1)
+                    for e in r:
+                        f.write(json.dumps(e) + "\n")
+                        n += 1
+            rc, out = tlc("Trace_Engine.tla", "Trace_Engine_%s.cfg" % ("watch" if watch else "once"), workers=1, env={"TRACE": dp},
+                          timeout=1500, java_opts="-Xss1g -Xmx3g -Dtlc2.tool.queue.IStateQueue=StateDeque", metaname="conf_%s_%d" % (name, int(watch)))
+            m = None
+            for line in out.splitlines():
+                m = DRIFT_RE.match(line.strip()) or m
+            if "TRACE-LINES" in out and "is violated" not in out:
+                res["runs"] += len(part)
+                res["lines"] += n
+                break
+            if m:
+                at = int(m.group(1))
+                k = max(j for j, st_ in enumerate(starts) if st_ <= at)
+                res["drift"].append({"cfg": part[k][0]["cfg"], "line": at - starts[k], "event": m.group(2)[:300], "watch": watch})
+                res["runs"] += k
+                res["lines"] += starts[k] - 1
+                part = part[k + 1:]
+                continue
+            if "is violated" in out:
+                inv = re.search(r"Invariant (\w+) is violated", out)
+                res["drift"].append({"invariant": inv.group(1) if inv else "?", "watch": watch,
+                                     "tail": "\n".join(l for l in out.splitlines() if not TLC_NOISE.match(l))[-600:]})
+                break
+            res["error"] = "\n".join(l for l in out.splitlines() if not TLC_NOISE.match(l))[-1500:]
+            break
+    return res
+
+
 def run_index(starts, line):
     k = 0
     for j, s in enumerate(starts):
@@ -263,6 +312,11 @@ def suite(tier, seed):
         with cf.ThreadPoolExecutor(NCPU) as ex:
             vres = list(ex.map(lambda z: validate_obs(z["name"]), zres))
         log("engine suite: trace validation done in %.0fs" % (time.time() - t1))
+        t1 = time.time()
+        hz = [z for z in zres if z["label"] != "realbin" and z["summary"] is not None]
+        with cf.ThreadPoolExecutor(NCPU) as ex:
+            cres = list(ex.map(lambda z: validate_conf(z["name"]), hz))
+        log("engine suite: conformance to Engine.tla done in %.0fs" % (time.time() - t1))
         res = {"mc": mc, "tier": tier, "seed": seed, "violations": [], "tool_errors": [], "runs": 0, "traces_validated": 0,
                "events": 0, "nontrivial": {p: 0 for p in ENGINE_PROPS}, "statuses": {}, "samples": [], "by_group": {}}
         seen_nt = {p: set() for p in ENGINE_PROPS}
@@ -299,6 +353,13 @@ def suite(tier, seed):
                                           "cfg": cfgs.get(r["cfg"]), "steps": r["steps"], "status": r.get("status"),
                                           "confirmed": label == "realbin",
                                           "params": {k2: job.get(k2) for k2 in ("max_changes", "signals", "max_steps")}})
+        res["conformance"] = {"runs_following_Engine_tla": sum(c["runs"] for c in cres), "steps": sum(c["lines"] for c in cres),
+                              "drift": [d for c in cres for d in c["drift"]][:20], "drift_count": sum(len(c["drift"]) for c in cres)}
+        for c in cres:
+            if c["error"]:
+                res["tool_errors"].append({"job": "conf:" + c["name"], "what": c["error"]})
+        if res["conformance"]["drift_count"]:
+            log("engine suite: DRIFT - %d run(s) the design specification could not follow" % res["conformance"]["drift_count"])
         res["nontrivial"] = {p: len(s) for p, s in seen_nt.items()}
         res["wall_s"] = round(time.time() - t0, 1)
         for name, st in mc.items():
@@ -340,6 +401,7 @@ def describe(pid, res):
         "tlc_configurations": {n: {"distinct": st["distinct"], "generated": st["generated"], "depth": st.get("depth"),
                                    "wall_s": st["wall_s"]} for n, st in mcs.items()},
         "harness_runs_by_group": res["by_group"], "run_statuses": res["statuses"], "trace_events": res["events"],
+        "conformance_to_Engine_tla": res.get("conformance"),
     }
     assumptions = [
         "Engine.tla abstractions: relay may take any sender's oldest message; handler-local updates atomic with the receive; "
